@@ -487,9 +487,10 @@ def minimise(ctx, run, viol, slot_idx, budget):
     n_exec = -1
     cut = len(h["steps"])
     for i, s in enumerate(h["steps"]):
-        if s["op"] == "exec":
-            n_exec += 1
-            if n_exec == viol["exec"]:
+        if s["op"] in ("exec", "overlap_at"):
+            # an overlap step stands for two executions (the peer completes first, then the parked one)
+            n_exec += 2 if s["op"] == "overlap_at" else 1
+            if n_exec >= viol["exec"]:
                 cut = i + 1
                 break
     h["steps"] = h["steps"][:cut]
@@ -709,6 +710,9 @@ def cmd_check(prop, tier):
                 probes["evict_" + s["what"]] = probes.get("evict_" + s["what"], 0) + 1
             elif s["op"] == "seed_outdir":
                 probes["outdir_" + s["state"]] = probes.get("outdir_" + s["state"], 0) + 1
+            elif s["op"] == "overlap_at":
+                ei += 2
+                probes["overlapping_processes"] = probes.get("overlapping_processes", 0) + 1
             elif s["op"] == "exec":
                 e = run["execs"][ei]
                 ei += 1
